@@ -7,6 +7,7 @@ building them from the specification's distributions agree.
 import ZstdVerif.Model.FSE
 import ZstdVerif.Lemmas.DStreamRT
 import ZstdVerif.Lemmas.TableSafe
+import ZstdVerif.Lemmas.SpreadRT
 namespace ZstdVerif.Props.C04
 open ZstdVerif ZstdVerif.Gen
 
@@ -50,5 +51,32 @@ theorem default_tables_closed :
     SeqClosed Gen.LL_defaultDTable.toArray Gen.LL_DEFAULTNORMLOG ∧ SeqClosed Gen.OF_defaultDTable.toArray Gen.OF_DEFAULTNORMLOG ∧
     SeqClosed Gen.ML_defaultDTable.toArray Gen.ML_DEFAULTNORMLOG :=
   TableSafe.default_tables_closed
+
+/-! ### decoding tables built from a description -/
+
+/-- **fse_spread_complete** (FSE_buildDTable_internal, lib/common/fse_decompress.c / ZSTD_buildFSETable_body,
+lib/decompress/zstd_decompress_block.c, the symbol spreading): for EVERY normalised distribution and `4 ≤ tableLog` the table has `2^L`
+positions, each holding a symbol of the alphabet, every symbol as often as its normalised count says (once for "less than one") - the
+`step` walk visits every free position exactly once -/
+theorem fse_spread_complete {norm : Array Int} {L : Nat} (hN : FSE.NormOK norm L) (hL : 4 ≤ L) : FSE.SpreadOK (FSE.spread norm L) norm L :=
+  FSE.spread_ok hN hL
+
+/-- **fse_spread_agree**: the table construction of the compressor (FSE_buildCTable_wksp, lib/compress/fse_compress.c) spreads the
+symbols exactly as the decoder's does, for EVERY normalised distribution -/
+theorem fse_spread_agree {norm : Array Int} {L : Nat} (hN : FSE.NormOK norm L) : FSE.spreadEnc norm L = FSE.spread norm L :=
+  FSE.spreadEnc_eq_spread hN
+
+open TableSafe in
+/-- **described_tables_closed** (ZSTD_buildSeqTable, all four modes): whatever the bytes, a table `Block.buildSeqTable` returns keeps every
+FSE state inside the table - the hypothesis `SpreadOK (spread …)` of `TableSafe.block_buildSeqTable_closed` is discharged by
+`FSE.spread_ok` on what `FSE.readNCount` accepts (`readNCount_normOK`: normalised, `5 ≤ tableLog`) -/
+theorem described_tables_closed {mode : Nat} {src : Bytes} {ip iend maxSym maxLog : Nat} {base bits : List Nat}
+    {dflt : List Gen.SeqCell} {dfltLog : Nat} {prev : Array Gen.SeqCell} {prevLog : Nat} {fseValid : Bool}
+    {T : Array Gen.SeqCell} {log used : Nat}
+    (h : Block.buildSeqTable mode src ip iend maxSym maxLog base bits dflt dfltLog prev prevLog fseValid = .ok (T, log, used))
+    (hd : SeqClosed dflt.toArray dfltLog) (hp : fseValid = true → SeqClosed prev prevLog) : SeqClosed T log :=
+  TableSafe.block_buildSeqTable_closed h hd hp (fun nc hr => by
+    obtain ⟨hN, _, h5, _⟩ := TableSafe.readNCount_normOK _ _ _ _ nc hr
+    exact FSE.spread_ok hN (by omega))
 
 end ZstdVerif.Props.C04
